@@ -17,6 +17,7 @@ func runC07(c *Ctx) {
 	c.Clause("C07.5 decision predicates of the forget-below pruning and of the gap-reveal / gap-fill ACK triggers (isMissing, hasNewMissingPackets, DeleteBelow trim and whole-range deletion) have the frozen shapes")
 	c.Clause("C07.6 GetAckFrame decides alarm expiry on ackAlarm, the field GetAlarmTimeout reports")
 	c.Clause("C07.7 the connection's run-loop timer folds in the ACK alarm on every path that is not hard-blocked (an armed alarm that the timer ignores never fires)")
+	c.Clause("C07.8 whenever ranges are removed from the front of the received-packet history (DeleteBelow, pruning beyond MaxNumAckRanges) the duplicate threshold deletedBelow is raised on the same path: what was forgotten counts as potentially duplicate")
 	c.NotCovered("interval-list algebra (merge/insert/prune correctness), HighestMissingUpTo")
 	c.NotCovered("that ranges are disjoint and include the largest received, as a value-level fact")
 
@@ -27,6 +28,7 @@ func runC07(c *Ctx) {
 	c.rule("C07.5", func() { c07Predicates(c) })
 	c.rule("C07.6", func() { c07AlarmAgreement(c) })
 	c.rule("C07.7", func() { timerFold(c, "C07.7", false, true) })
+	c.rule("C07.8", func() { c07ForgettingRaisesThreshold(c) })
 }
 
 func c07Ranges(c *Ctx) {
@@ -187,7 +189,19 @@ func c07Thresholds(c *Ctx) {
 			return ok && !isConstBool(retResults(r)[0], false)
 		}, Edge: EdgeRel(below, true)}, "with the p >= deletedBelow edge removed, only `return false` remains")
 
-	ws := c.checkWriters(R, deletedBelow, c.set([3]string{ah, "receivedPacketHistory", "DeleteBelow"}, [3]string{ah, "", "newReceivedPacketHistory"}), 2)
+	ws := c.checkWriters(R, deletedBelow, c.set([3]string{ah, "receivedPacketHistory", "DeleteBelow"}, [3]string{ah, "", "newReceivedPacketHistory"}, [3]string{ah, "receivedPacketHistory", "ReceivedPacket"}), 2)
+	// a store in ReceivedPacket (the pruning of old ranges) only ever raises the threshold: max(deletedBelow, …)
+	for _, w := range ws[funcObj(rp)] {
+		okMax := false
+		if cl, isCall := stripConv(w.Val).(*ssa.Call); isCall && builtinName(&cl.Call) == "max" {
+			for _, a := range cl.Call.Args {
+				if Load(deletedBelow)(a) {
+					okMax = true
+				}
+			}
+		}
+		c.Check(okMax, R, "shape:deletedBelow raised by pruning = max(deletedBelow, …)", c.P.InstrPos(w.Instr), "the threshold only moves up")
+	}
 	db := c.fn(ah, "receivedPacketHistory", "DeleteBelow")
 	for _, w := range ws[funcObj(db)] {
 		c.Check(ParamV("p")(w.Val), R, "shape:deletedBelow=p", c.P.InstrPos(w.Instr), "threshold stored as given")
